@@ -443,6 +443,13 @@ def centroid_by_value(chk, fi: FuncInfo, points: str) -> bool:
             res = c03v.ResStub(repo, L, model=1, tag=1, missing=missing)
             env = c03v.run_prefix(repo, fi, points, [res], None)
             results.append((L, missing, res, list(env[points]), c03v.site_dicts(env, points) if env[points] else {}))
+        # a base without its backbone (base-only or coarse-grained coordinates: ring atoms and C1' only) has a base centroid like any other
+        for L in c03v.LETTERS:
+            ring = t["BASE_ATOMS"].get(L, [])
+            if ring:
+                res = c03v.ResStub(repo, L, model=1, tag=1, names=list(ring) + ["C1'"])
+                env = c03v.run_prefix(repo, fi, points, [res], None)
+                results.append((L, ["<backbone>"], res, list(env[points]), c03v.site_dicts(env, points) if env[points] else {}))
     except c03v.NotEvaluable as ex:
         if "ZeroDivisionError" in str(ex):
             chk.violation("centroid-guard", fi.where, f"registering a residue without any ring atom present fails ({str(ex)[:80]}): the centroid is computed without testing that at least one base atom is present", K(fi, "centroid-guard"))
@@ -452,7 +459,7 @@ def centroid_by_value(chk, fi: FuncInfo, points: str) -> bool:
     wrong, unguarded, mapping = {}, {}, {}
     for L, missing, res, pts, dicts in results:
         ring = [a for a in res.atoms if a.name in t["BASE_ATOMS"].get(L, [])]
-        label = f"{L}" + (f" without {missing[0]}" if len(missing) == 1 else (" without ring atoms" if missing else ""))
+        label = f"{L}" + (" with ring atoms and C1' only (no backbone)" if missing == ["<backbone>"] else f" without {missing[0]}" if len(missing) == 1 else (" without ring atoms" if missing else ""))
         if not ring:
             if pts:
                 unguarded[label] = pts[:1]
